@@ -313,10 +313,12 @@ class Policy:
         on_end: AttemptHook | None,
     ) -> RetryOutcome[Any]:
         """Execute single attempt without retry."""
+        invoked = False
         try:
             if on_start is not None:
                 on_start(make_attempt_context(1, ctx.operation, ctx.elapsed()))
 
+            invoked = True
             result = func()
 
         except AbortRetryError as exc:
@@ -332,7 +334,7 @@ class Policy:
                         stop_reason=StopReason.ABORTED,
                     )
                 )
-            return build_aborted_outcome(ctx)
+            return build_aborted_outcome(ctx, attempts=1 if invoked else 0)
 
         except (KeyboardInterrupt, SystemExit):
             record_cancel(ctx)
